@@ -1,11 +1,12 @@
 (* Interp/RunC12.v — purity cases (C12):
      (c12 ENV SCHEMA (coll B) (calls OP...))     OP ::= (u V) | (v V) | (s V) | (c V)
    prediction:
-     (r (coll B) (CLS same kept)... (state same) (after same))
+     (r (coll B) (CLS same kept)... (state same) (after same) (desc same))
    The model is a pure function of (schema, argument): by C12_history_free the result of every call of a
    history equals its result on the initial state, repeated evaluation gives the same result whatever
    the order of map entries (C12_order_independent, outside the key-collision class), arguments are
-   immutable values, and the state after a history is that of a fresh instance.  `coll` is the model's
+   immutable values, and the state after a history is that of a fresh instance; the schema is a value of the model too, so
+   its self-description (desc: property flags, default texts, rule lists in their order) after any call is the one before it.  `coll` is the model's
    evaluation of Perm.has_key_collision on the call arguments (known finding D19).
      (c12s NAME (calls OP...))  struct-mapped objects: not modelled; the prediction is the statement of
    C12 with the outcome class projected to `t`. *)
@@ -42,7 +43,7 @@ Definition run_c12_case (x : sexp) : sexp :=
       | Some e, Some s =>
           let coll := existsb (fun op => match c12_call_val op with Some v => has_key_collision v | None => false end) calls in
           Ls (At "r" :: Ls [At "coll"; sb coll]
-                :: (map (run_c12_call e s) calls ++ [Ls [At "state"; At "same"]; Ls [At "after"; At "same"]])%list)
+                :: (map (run_c12_call e s) calls ++ [Ls [At "state"; At "same"]; Ls [At "after"; At "same"]; Ls [At "desc"; At "same"]])%list)
       | None, _ => bad "env"
       | _, None => bad "schema"
       end
@@ -53,6 +54,6 @@ Definition run_c12s_case (x : sexp) : sexp :=
   match x with
   | Ls [At "c12s"; _; Ls (At "calls" :: calls)] =>
       Ls (At "r" :: (map (fun _ => Ls [At "t"; At "same"; At "kept"]) calls
-                       ++ [Ls [At "state"; At "same"]; Ls [At "after"; At "same"]])%list)
+                       ++ [Ls [At "state"; At "same"]; Ls [At "after"; At "same"]; Ls [At "desc"; At "same"]])%list)
   | _ => bad "c12s case"
   end.
